@@ -74,6 +74,15 @@ Theorem C18_static_parts_stable_except_known :
 Proof. exact static_parts_stable. Qed.
 Print Assumptions C18_static_parts_stable_except_known.
 
+(** an element renders the same bytes whatever escape flag / position its parent hands down:
+    below a raw-text ancestor (<noscript>) its text is escaped by its own kind, on both paths *)
+Theorem C18_element_ignores_parent_escape :
+  forall io top e1 e2 pos1 pos2 tag attrs ch,
+  r_node io top e1 pos1 (NElem tag attrs ch) = r_node io top e2 pos2 (NElem tag attrs ch)
+  /\ inert_node e1 (NElem tag attrs ch) = inert_node e2 (NElem tag attrs ch).
+Proof. exact element_ignores_parent_escape. Qed.
+Print Assumptions C18_element_ignores_parent_escape.
+
 (** the macro's and the renderer's own tables of void and raw-text elements agree *)
 Theorem C18_void_tables_agree :
   forall tag, beq tag k_param = false -> mem tag macro_void = b_void tag.
